@@ -51,6 +51,25 @@ pub fn script(seed: u64, idx: u64) -> Trace {
             push(&mut t, Op::Restart { mode: CloseMode::FlushCrash, edits: Vec::new() });
         }
     }
+    if idx % 4 == 1 {
+        // a table stream larger than the container's 8 KiB stream buffer (and than a
+        // std BufWriter): the save pushes out full buffers before its final flush
+        let mut id = t.ops.iter().map(|o| o.id).max().unwrap_or(0) + 1;
+        let mut push = |t: &mut Trace, op: Op| {
+            t.ops.push(OpRec { id, op });
+            id += 1;
+        };
+        let cols = vec![ColSpec::new("K", CType::I32).key(), ColSpec::new("V", CType::I32).nullable()];
+        push(&mut t, Op::CreateTable { name: "Big".into(), cols });
+        let n1 = if idx % 8 == 1 { 700 } else { 1300 };
+        push(&mut t, Op::Insert { table: "Big".into(), rows: (0..n1).map(|i| vec![Val::Int(i * 3), Val::Int(i)]).collect() });
+        push(&mut t, Op::Flush);
+        push(&mut t, Op::Restart { mode: CloseMode::IntoInner, edits: Vec::new() });
+        push(&mut t, Op::Insert { table: "Big".into(), rows: (0..900).map(|i| vec![Val::Int(i * 3 + 1), Val::Int(-i)]).collect() });
+        push(&mut t, Op::Flush);
+        push(&mut t, Op::Update { table: "Big".into(), sets: vec![("V".into(), Val::Int(7))], cond: Some(Cond::Cmp("K".into(), CmpOp::Lt, Val::Int(600))) });
+        push(&mut t, Op::Restart { mode: CloseMode::IntoInner, edits: Vec::new() });
+    }
     t
 }
 
